@@ -72,6 +72,16 @@ pub fn lists(thorough: bool, seed: usize) -> Vec<Vec<Vec<u8>>> {
         v.push(vec![base[..minl].to_vec()]);
         v.push(vec![base[..minl + 5].to_vec(), base[3..minl + 3].to_vec(), base[..minl + 20].to_vec()]);
     }
+    // 21..64 patterns with duplicated strings (ordering stability beyond small-sort thresholds)
+    for _ in 0..(if thorough { 200 } else { 30 }) {
+        let n = 21 + rng.below(44);
+        let mut l: Vec<Vec<u8>> = (0..n).map(|_| { let k = 2 + rng.below(3); rng.bytes(b"abcdefgh", k) }).collect();
+        for _ in 0..(2 + rng.below(4)) {
+            let (i, j) = (rng.below(n), rng.below(n));
+            l[j] = l[i].clone();
+        }
+        v.push(l);
+    }
     let n = if thorough { 600 } else { 70 };
     for i in 0..n {
         let alpha: Vec<u8> = match i % 4 {
